@@ -84,7 +84,10 @@ func c17Property(t *rapid.T) {
 	defer w.N.Destroy()
 	methods := contractMethods(w.N)
 	pools := defaultPools(w)
-	pools.strings = append(pools.strings, tpl.Data["openProposal"], sim.KeyFor("node-1").Addr.String(), "QmVerifPid1", "vpNode", "nvpNode")
+	pools.strings = append(pools.strings, tpl.Data["openProposal"], sim.KeyFor("node-1").Addr.String(), "QmVerifPid1", "vpNode", "nvpNode",
+		// state keys and callee names for the storage / cross-invocation primitives
+		"bitxhub-id", "service-"+sim.FullID(w.BxhID, "chainA", "s1"), "appchain-chainA", constant.TransactionMgrContractAddr.Address().String(), constant.InterchainContractAddr.Address().String(),
+		"InitServiceCache", "GetInterchain", "Begin")
 	roles := []c17Role{
 		{"outsider", sim.Outsiders[0]},
 		{"admin-of-another-appchain", sim.ChainAdmins["chainA"]},
@@ -127,8 +130,23 @@ func c17Property(t *rapid.T) {
 		case c17ChainAdminOrGov[name] != "" && role.name != "admin-of-the-target-appchain" && role.name != "governance-admin":
 			mustFail = "reserved to the admin of chainB or governance admins"
 		}
-		if forceMustFail != "" {
+		noEffect := strings.HasPrefix(forceMustFail, "no-effect:")
+		if forceMustFail != "" && !noEffect {
 			mustFail = forceMustFail
+		}
+		if noEffect {
+			// the statement does not list these names as entry points, so a refusal is not demanded of them; what is
+			// demanded: named by an external account they write nothing (the fee aside)
+			allowed := map[string]bool{sim.AccountKey(role.key.Addr): true}
+			for _, a := range w.N.Admins {
+				allowed[sim.AccountKey(a.Addr)] = true
+			}
+			for _, k := range sim.DiffDumps(before, after) {
+				if !allowed[k] {
+					ops = append(ops, line)
+					f.fail("%s (%s) invoked directly by %s (ok=%v) changed state key %s:\n%s", name, strings.TrimPrefix(forceMustFail, "no-effect:"), role.name, r.IsSuccess(), sim.PrettyKey(k), sim.DescribeDiff(before, after, []string{k}, 1))
+				}
+			}
 		}
 		ret := string(r.Ret)
 		parsed := !(strings.Contains(ret, "not such method") || strings.Contains(ret, "parse args") || strings.Contains(ret, "reflect:") || strings.Contains(ret, "unmarshal invoke payload"))
@@ -253,7 +271,13 @@ func c17Property(t *rapid.T) {
 				}
 				args = append(args, a)
 			}
-			checkCall(name, m.Addr, m.Name, role, args, mi%37 == 3 && ri == 0, "", "")
+			force, cls := "", ""
+			if m.Stub {
+				// Set, Delete, Add, SetObject, PostInterchainEvent, CrossInvoke ...: what the contract itself uses towards the
+				// VM. The dispatcher finds them by name; named by an external account they must fail and change nothing
+				force, cls = "no-effect:storage / VM primitive of the contract, not an entry point", "stub-primitive-by-name"
+			}
+			checkCall(name, m.Addr, m.Name, role, args, mi%37 == 3 && ri == 0, cls, force)
 		}
 	}
 	st.Exhaustive = true
